@@ -186,7 +186,8 @@ func (ip *Inode) zeroTail(atxn *alloctxn.AllocTxn, sz uint64) {
 func (ip *Inode) Resize(atxn *alloctxn.AllocTxn, sz uint64) bool {
 	var newSz = sz
 	var doshrink = false
-	var oldsz = util.RoundUp(ip.Size, disk.BlockSize)
+	var cursz = util.RoundUp(ip.Size, disk.BlockSize)
+	var oldsz = cursz
 	if ip.ShrinkSize > oldsz {
 		// an earlier shrink has not finished: blocks up to ShrinkSize are still owned
 		oldsz = ip.ShrinkSize
@@ -198,6 +199,11 @@ func (ip *Inode) Resize(atxn *alloctxn.AllocTxn, sz uint64) bool {
 	ip.Size = newSz
 	newSz = util.RoundUp(sz, disk.BlockSize)
 	if newSz < oldsz {
+		if oldsz == cursz {
+			// a write that ran out of space may have left the index blocks of the
+			// block just above the end of the file: start freeing one block further up
+			oldsz = oldsz + 1
+		}
 		ip.ShrinkSize = oldsz
 	} else {
 		ip.ShrinkSize = newSz
